@@ -463,6 +463,38 @@ func c13AfterFailure(o *common.Out, id string, mode string) {
 		}
 		before[k] = rep
 	}
+	// the raw entry point: the same raw request, carried by message objects of their own, always reaches the same server
+	rawTo := func(k int) (int, error) {
+		m := protocol.NewMessage()
+		m.SetMessageType(protocol.Request)
+		m.SetSerializeType(protocol.JSON)
+		m.ServicePath, m.ServiceMethod = "Svc", "M"
+		m.Metadata = map[string]string{"k": strconv.Itoa(k)}
+		m.Payload = []byte(fmt.Sprintf(`"raw-key-%d"`, k*104729))
+		ctx, cancel := context.WithTimeout(context.Background(), 5*time.Second)
+		defer cancel()
+		_, payload, err := xc.SendRaw(ctx, m)
+		if err != nil {
+			return 0, err
+		}
+		n, _ := strconv.Atoi(strings.TrimSpace(string(payload)))
+		return n, nil
+	}
+	for k := 0; k < 16; k++ {
+		first, err := rawTo(k)
+		if err != nil {
+			o.Fail(id, "rig", "a raw request failed while every server was up: "+err.Error(), abstract)
+			return
+		}
+		for rep := 0; rep < 5; rep++ {
+			again, err := rawTo(k)
+			if err != nil || again != first {
+				o.Fail(id, "mapping-moved", fmt.Sprintf("the same raw request (key %d) reached server %d, then server %d (%v), with an unchanged server set", k, first-100, again-100, err), abstract)
+				k = 16
+				break
+			}
+		}
+	}
 	// server 3 goes down: its connections drop, new ones are refused
 	unregisterFake(addr(3))
 	failed := 0
